@@ -369,7 +369,7 @@ func init() {
 				case 0:
 					age = []int{4800, 5200, 6000}[r.Intn(3)]
 				case 1:
-					age = []int{30000, 59800, 60200}[r.Intn(3)]
+					age = []int{29000, 59800, 60200}[r.Intn(3)]
 				}
 				frames = append(frames, partFrame(r, p.id, ver, phone, next(), p.total, p.no, p.body))
 				ages = append(ages, age)
@@ -383,10 +383,42 @@ func init() {
 					ages = append(ages, 0)
 				}
 			}
+			// every third session: repeated re-request rounds with partial resupply (one transfer, total 5..9)
+			if s%3 == 1 {
+				frames, ages = nil, nil
+				total := 5 + r.Intn(5)
+				id := ids[0]
+				var order []int
+				for no := 2; no <= total; no++ {
+					order = append(order, no)
+				}
+				r.Shuffle(len(order), func(i, j int) { order[i], order[j] = order[j], order[i] })
+				frames = append(frames, partFrame(r, id, ver, phone, next(), total, 1, []byte{1}))
+				ages = append(ages, 0)
+				for len(order) > 0 {
+					k := 1 + r.Intn(3)
+					if k > len(order) {
+						k = len(order)
+					}
+					for i, no := range order[:k] {
+						age := 0
+						if i == 0 {
+							age = []int{5200, 5200, 4800, 6000}[r.Intn(4)]
+						}
+						frames = append(frames, partFrame(r, id, ver, phone, next(), total, no, []byte{byte(no), 0x7e}))
+						ages = append(ages, age)
+					}
+					order = order[k:]
+					if r.Intn(2) == 0 {
+						frames = append(frames, buildFrame(hdrSpec{id: 0x0002, serial: next(), ver: ver, verbyte: 1, phone: phone}))
+						ages = append(ages, 5200)
+					}
+				}
+			}
 			// feed: frame-aligned with ages, or re-segmented without ages
 			e := service.VerifNewExtractor()
 			out.put(XStep{Op: "reset", Sess: s, Out: []XMsg{}, Rereq: []XReq{}, Bytes: B{}})
-			if r.Intn(2) == 0 {
+			if r.Intn(2) == 0 || s%3 == 1 {
 				for k, f := range frames {
 					if ages[k] > 0 {
 						e.Age(time.Duration(ages[k]) * time.Millisecond)
